@@ -68,7 +68,7 @@ func reachableOurs(p *Prog, roots []*ssa.Function) map[*ssa.Function]bool {
 			return
 		}
 		pk := fnPkg(f)
-		if pk == nil || !strings.HasPrefix(pk.Path(), modPath) || pk.Path() == pkgPaths["rafttest"] {
+		if pk == nil || !isOurPath(pk.Path()) || pk.Path() == pkgPaths["rafttest"] {
 			return
 		}
 		seen[f] = true
@@ -308,6 +308,29 @@ func c19MapRanges(c *Check, R map[*ssa.Function]bool) {
 		fi := p.Info(site.fn)
 		h := site.next.Block().Index
 		loop := naturalLoop(fi, h)
+		// the body is entered on the header's "ok" edge even if it never loops back
+		// (e.g. `for k := range m { return k }`)
+		bodySrc := map[int]bool{}
+		for b := range loop {
+			if b != h {
+				bodySrc[b] = true
+			}
+		}
+		hb := fi.Fn.Blocks[h]
+		normalExit := -1
+		if _, ok := hb.Instrs[len(hb.Instrs)-1].(*ssa.If); ok && len(hb.Succs) == 2 && fi.Cut[h] < 0 {
+			normalExit = hb.Succs[1].Index
+			be := hb.Succs[0].Index
+			if !loop[be] {
+				// body without a back edge: everything up to the normal exit is "body"
+				for b := range fi.ReachableFrom([]int{be}, func(x int) bool { return x == h || x == normalExit }) {
+					if b != normalExit && b != h {
+						bodySrc[b] = true
+						loop[b] = true
+					}
+				}
+			}
+		}
 		where := p.site(site.rng)
 		if !site.rng.Pos().IsValid() {
 			where = p.site(site.next)
@@ -373,7 +396,7 @@ func c19MapRanges(c *Check, R map[*ssa.Function]bool) {
 					why := ""
 					for _, callee := range p.Callees(x) {
 						pk := fnPkg(callee)
-						if pk == nil || !strings.HasPrefix(pk.Path(), modPath) {
+						if pk == nil || !isOurPath(pk.Path()) {
 							continue // external: fmt, errors, slices... produce values only
 						}
 						e := p.Effects(callee)
@@ -417,10 +440,7 @@ func c19MapRanges(c *Check, R map[*ssa.Function]bool) {
 		// normal exit) – a return/break taken at an element chosen by iteration order
 		exitSeen := map[int]bool{}
 		var exitWork []int
-		for b := range loop {
-			if b == h {
-				continue
-			}
+		for b := range bodySrc {
 			for _, s2 := range fi.Succs[b] {
 				if !loop[s2] && !exitSeen[s2] {
 					exitSeen[s2] = true
@@ -800,7 +820,7 @@ func c19Misc(c *Check, R map[*ssa.Function]bool) {
 			for _, sk := range fi.ForwardSinks(call) {
 				if sk.Kind == "field" || sk.Kind == "elem" {
 					// error values / describe helpers build strings; storing them into protocol state is the problem
-					if sk.Field != nil && (sk.Field.Pkg() == nil || !strings.HasPrefix(sk.Field.Pkg().Path(), modPath)) {
+					if sk.Field != nil && (sk.Field.Pkg() == nil || !isOurPath(sk.Field.Pkg().Path())) {
 						continue
 					}
 					c.Bad("C19.F", "formatted text stored into state", fnName(fn), p.site(sk.Instr), "formatted / stringified values go only to the logger, panics or error returns", fmt.Sprintf("field %v", sk.Field))
